@@ -291,11 +291,12 @@ Section Sound.
       product_by_order equals the full sum.  DSL/HermValid.v derives both from "the second
       factor is the adjoint series of the first". *)
   Hypothesis Hlow : forall s p i j n,
-      kind_of alg inputs s = KProduct p -> pherm p = true -> j < i ->
+      kind_of alg inputs s = KProduct p -> pherm p = true -> j < i -> wf_index W (i, j, n) = true ->
       forall x : V, (forall fu' w', spec fu' (KN s) (j, i, n) = Some w' -> x == w') ->
       forall fu w, spec fu (KN s) (i, j, n) = Some w -> vadj O x == w.
   Hypothesis Hdiag : forall s p i n fu w,
       kind_of alg inputs s = KProduct p -> pherm p = true -> length (pfactors p) = 2 ->
+      wf_index W (i, i, n) = true ->
       iprod_gen O SW (spec fu) (i, i, n) false (first_key p 2) (second_key p 2) = Some w ->
       forall fu' w', iprod_gen O SW (spec fu') (i, i, n) true (first_key p 2) (second_key p 2) = Some w' ->
                      w' == w.
@@ -848,12 +849,13 @@ Section Sound.
     Qed.
 
     Lemma eval_of_ok tb k idx :
+      wf_index W idx = true ->
       (forall x d, tb = TTab -> k = KN x -> kind_of alg inputs x = KSeries d -> start_sval W d idx = None) ->
       (forall x, tb = TTab -> k = KN x -> kind_of alg inputs x <> KInput) ->
       mok (idx_n idx) (eval_of O alg prog W rec tb k idx) (fun v => agrees v k idx).
     Proof.
       pose proof (vl_equiv L) as EQ.
-      intros Hst Hni. destruct k as [x|pn k']; cbn [eval_of].
+      intros Hwf Hst Hni. destruct k as [x|pn k']; cbn [eval_of].
       - destruct (kind_of alg inputs x) as [|d|p|] eqn:K.
         + destruct tb; [exfalso; eapply Hni; eauto | apply Hrec].
         + destruct tb; [|apply Hrec].
@@ -871,7 +873,7 @@ Section Sound.
             intros v Hv. apply mok_lift. intros z Ez f w E.
             destruct idx as [[i j] n]. cbn [idx_i idx_j] in HL.
             rewrite (den_sdagger L _ Ez).
-            eapply (@Hlow x p i j n K HP HL (den O v)); [|exact E].
+            eapply (@Hlow x p i j n K HP HL Hwf (den O v)); [|exact E].
             intros fu' w' E'. exact (Hv _ _ E').
           * destruct (pherm p && Nat.eqb (length (pfactors p)) 2 && Nat.eqb (idx_i idx) (idx_j idx)) eqn:HD.
             -- apply andb_true_iff in HD. destruct HD as [HD HI]. apply andb_true_iff in HD.
@@ -1001,6 +1003,8 @@ Section Sound.
   Proof.
     pose proof (vl_equiv L) as EQ.
     intros Hrec tb k ix stack s r s' I E NO. unfold getitem_step in E.
+    destruct (wf_index W ix) eqn:Hwf; cbn [negb] in E.
+    2:{ inversion E; subst. split; [exact I | split; [apply ext_refl | intros; discriminate]]. }
     destruct (st_lookup s (tb, k, ix)) as [[|v]|] eqn:Lk.
     - inversion E; subst. split; [exact I | split; [apply ext_refl | intros; discriminate]].
     - inversion E; subst. split; [exact I | split; [apply ext_refl|]].
@@ -1049,7 +1053,7 @@ Section Sound.
         destruct (eval_of O alg prog W rec tb k ix s1) as [r1 s2] eqn:E1.
         assert (Hst : forall x d, tb = TTab -> k = KN x -> kind_of alg inputs x = KSeries d -> start_sval W d ix = None).
         { intros x d -> -> K. destruct (start_sval W d ix) as [sv|] eqn:S; auto. exfalso. exact (NS x d ix sv eq_refl K S). }
-        pose proof (@eval_of_ok rec Hrec tb k ix Hst Hni) as OK.
+        pose proof (@eval_of_ok rec Hrec tb k ix Hwf Hst Hni) as OK.
         destruct r1 as [v|e|].
         * inversion E; subst. clear E.
           destruct (OK _ _ _ _ I1 E1) as (I2 & X2 & P2); [discriminate|].
